@@ -98,16 +98,19 @@ func parseDestinationAndHeader(mls *MetaLeaseSet, data []byte) ([]byte, error) {
 // validateMinSize validates that data meets minimum MetaLeaseSet size requirements.
 // Returns error if data is too short to contain a valid MetaLeaseSet.
 func validateMinSize(dataLen int) error {
-	if dataLen < META_LEASESET_MIN_SIZE {
+	// Only the fixed header is required up front: a MetaLeaseSet with a DSA destination, a short
+	// encryption key or few entries is legitimately shorter than the typical minimum, and every
+	// later field checks its own length before it is read.
+	if dataLen < META_LEASESET_HEADER_MIN_SIZE {
 		err := oops.
 			Code("meta_leaseset_too_short").
 			With("data_length", dataLen).
-			With("minimum_required", META_LEASESET_MIN_SIZE).
-			Errorf("data too short for MetaLeaseSet: got %d bytes, need at least %d", dataLen, META_LEASESET_MIN_SIZE)
+			With("minimum_required", META_LEASESET_HEADER_MIN_SIZE).
+			Errorf("data too short for MetaLeaseSet: got %d bytes, need at least %d", dataLen, META_LEASESET_HEADER_MIN_SIZE)
 		log.WithFields(logger.Fields{
 			"at":          "validateMinSize",
 			"data_length": dataLen,
-			"min_size":    META_LEASESET_MIN_SIZE,
+			"min_size":    META_LEASESET_HEADER_MIN_SIZE,
 		}).Error(err.Error())
 		return err
 	}
